@@ -1855,6 +1855,11 @@ type tid = nat
 let w_is_free v =
   Z.eqb (Z.modulo v (Zpos (XO (XO XH)))) Z0
 
+(** val w_is_obsolete : z -> bool **)
+
+let w_is_obsolete v =
+  Z.eqb v (Zpos XH)
+
 (** val w_set_locked : z -> z **)
 
 let w_set_locked v =
@@ -1929,7 +1934,7 @@ let lstep s = function
          (remove_tid t s.guards) }
   else None
 | EStore (t, i, x) ->
-  if (&&) (holds s t) (Nat.ltb i (length s.lmem))
+  if (&&) ((||) (holds s t) (w_is_obsolete s.lw)) (Nat.ltb i (length s.lmem))
   then Some { lw = s.lw; lmem = (set_nth i x s.lmem); guards = s.guards }
   else None
 | ELoad (_, i, x) ->
@@ -1954,6 +1959,74 @@ let rec lrun_diag s tr i =
     (match lstep s e with
      | Some s' -> lrun_diag s' tr' (S i)
      | None -> (s, (Some i)))
+
+type blk = nat
+
+type gev = blk * event
+
+(** val project : blk -> gev list -> event list **)
+
+let project b tr =
+  map snd (filter (fun e -> Nat.eqb (fst e) b) tr)
+
+(** val node_accepts : (blk * lstate) list -> gev list -> bool **)
+
+let node_accepts inits tr =
+  forallb (fun bi ->
+    match lrun (snd bi) (project (fst bi) tr) with
+    | Some _ -> true
+    | None -> false) inits
+
+(** val node_diag : (blk * lstate) list -> gev list -> (blk * nat) option **)
+
+let rec node_diag inits tr =
+  match inits with
+  | [] -> None
+  | p :: inits' ->
+    let (b, s) = p in
+    (match snd (lrun_diag s (project b tr) O) with
+     | Some i -> Some (b, i)
+     | None -> node_diag inits' tr)
+
+(** val held_after : (blk * tid) list -> gev list -> (blk * tid) list **)
+
+let rec held_after held = function
+| [] -> held
+| g :: tr' ->
+  let (b, e) = g in
+  (match e with
+   | EUpgrade (t, _, ok) ->
+     if ok then held_after ((b, t) :: held) tr' else held_after held tr'
+   | EWUnlock (t, _) ->
+     held_after
+       (filter (fun h -> negb ((&&) (Nat.eqb (fst h) b) (Nat.eqb (snd h) t)))
+         held) tr'
+   | EWObsolete t ->
+     held_after
+       (filter (fun h -> negb ((&&) (Nat.eqb (fst h) b) (Nat.eqb (snd h) t)))
+         held) tr'
+   | _ -> held_after held tr')
+
+(** val holds_any : (blk * tid) list -> tid -> bool **)
+
+let holds_any held t =
+  existsb (fun h -> Nat.eqb (snd h) t) held
+
+(** val no_wait_while_holding : (blk * tid) list -> gev list -> bool **)
+
+let rec no_wait_while_holding held = function
+| [] -> true
+| g :: tr' ->
+  let (b, e) = g in
+  (&&) (match e with
+        | ESpin t -> negb (holds_any held t)
+        | _ -> true)
+    (no_wait_while_holding (held_after held ((b, e) :: [])) tr')
+
+(** val olc_trace_ok : (blk * lstate) list -> gev list -> bool **)
+
+let olc_trace_ok inits tr =
+  (&&) (node_accepts inits tr) (no_wait_while_holding [] tr)
 
 type tid0 = nat
 
